@@ -283,7 +283,7 @@ def small_trees(max_ops, leaves, bins, uns):
 
 
 NUMS = ["2", "3", "0.5", ".5", "1.50", "2.0", "10", "0.25", "1", "0"]
-STRS = ["'a'", '"a"', "'b c'", '"x+z"', "''"]
+STRS = ["'a'", '"a"', "'b c'", '"x+z"', "''", "'b  c'", "'p\tq'", '"two   blanks "']
 PYLITS = ["True", "False", "None"]
 
 
